@@ -131,7 +131,11 @@ def check_classes(name, sp, fx, stats):
         if fields != sorted([x['leftField'], x['rightField']]):
             V('association_fields', f'{cls} has fields {fields}', expected=sorted([x['leftField'], x['rightField']]), observed=fields)
         if names.count(x['name']) > 1:
-            others = [lookup(y) for y in sp['associations'] if y['name'] == x['name'] and y is not x]
+            try:
+                others = [lookup(y) for y in sp['associations'] if y['name'] == x['name'] and y is not x]
+            except Exception as e:  # noqa: BLE001
+                V(f'signature_lookup_raised:{type(e).__name__}', f'get_association_by_signature({x["name"]},...) raised {e}')
+                continue
             if cls in others:
                 V('same_named_associations_collapse', f'associations named {x["name"]} are not distinguishable', observed=[cls] + others)
     return viols
